@@ -303,8 +303,16 @@ def run(ctx):
     ctx.rule("C14.R5", "argument and stdin transports split on the same delimiters; argument first, then stream", floor=3)
     def char_consts(fname_prefix):
         out = set()
+        # the reader itself, its closures, and character predicates it hands to str::find / split / take_while as fn items
+        scope = {n for n in prog.fns if n == fname_prefix or n.startswith(fname_prefix + "::{closure")}
+        for n in list(scope):
+            for b, t, c in prog.fns[n].calls():
+                for cl in t["f"].get("closures", []):
+                    nm = cl[3:] if cl.startswith("fn:") else cl
+                    if nm in prog.fns and prog.fns[nm].d.get("inputs") in (["char"], ["&char"]) and prog.fns[nm].d.get("output") == "bool":
+                        scope.add(nm)
         for n, f in prog.fns.items():
-            if n == fname_prefix or n.startswith(fname_prefix + "::{closure"):
+            if n in scope:
                 for b, i, s in f.assigns():
                     r = s["r"]
                     if r["k"] == "bin" and r["op"] in ("Eq", "Ne") and r.get("ty") == "char":
